@@ -115,3 +115,45 @@ Definition leaf_methods : list (string * string * Value * PT) := [
 Definition leaf_tables_ok : bool :=
   forallb (fun r : string * string * Value * PT =>
              let '(ms, mt, _, p) := r in leaf_call ms (pt_name p) sample_calls && leaf_call mt (pt_name p) type_calls) leaf_methods.
+
+(* ---- the shape transitions (ensure_struct / tuple / union / list / map) ----
+   What the model's ensure_* encode, as a literal table compared with the arms regenerated from the source: the depth limit is enforced
+   first; a position that is Unknown or a null-only primitive is upgraded to the shape; a position that has the shape already keeps it
+   (a struct position switches to map mode when a map arrives; a tuple position marks the elements that the shorter tuples lack as
+   nullable); every other position is refused.  The kind bookkeeping behind C07_success_puts_in_class. *)
+Definition upgrade_guard : string :=
+  "this if matches!(this, Self::Unknown(_)) || matches!(this, Self::Primitive(ref tracer) if tracer.item_type == DataType::Null)".
+Definition expected_ensure_arms : list (string * string * list (string * string)) := [
+  ("ensure_struct", "yes", [(upgrade_guard, "assigns Self::Struct"); ("Self::Struct(tracer)", "{ if let StructMode::Map = mode { tracer.mode = StructMode::Map; } }"); ("_", "fail")]);
+  ("ensure_tuple", "yes", [(upgrade_guard, "assigns Self::Tuple"); ("Self::Tuple(tracer)", "{ let seen = tracer.field_tracers.len(); for idx in seen.min(num_fields)..seen.max(num_fields) { tracer.field_tracer(idx).mark_nullable(); } }"); ("_", "fail")]);
+  ("ensure_union", "yes", [(upgrade_guard, "assigns Self::Union"); ("Self::Union(_tracer)", "{}"); ("_", "fail")]);
+  ("ensure_list", "yes", [(upgrade_guard, "assigns Self::List"); ("Self::List(_tracer)", "{}"); ("_", "fail")]);
+  ("ensure_map", "yes", [(upgrade_guard, "assigns Self::Map"); ("Self::Map(_tracer)", "{}"); ("_", "fail")])
+].
+Definition ensure_arms_ok : bool :=
+  (fix go (x y : list (string * string * list (string * string))) := match x, y with
+     | [], [] => true
+     | (n, d, a) :: x', (n', d', a') :: y' =>
+       String.eqb n n' && String.eqb d d' &&
+       (fix arms (p q : list (string * string)) := match p, q with
+          | [], [] => true | (u, v) :: p', (u', v') :: q' => String.eqb u u' && String.eqb v v' && arms p' q' | _, _ => false end) a a' && go x' y'
+     | _, _ => false end) ensure_arms expected_ensure_arms.
+
+(* the model's reading of that table: one equation per shape *)
+Lemma ensure_list_reads d t : ensure_list d t =
+  if Nat.leb max_depth d then Err else if upgradable t then Ok (TList (t_nullable t) (TUnknown false)) else match t with TList _ _ => Ok t | _ => Err end.
+Proof. reflexivity. Qed.
+Lemma ensure_map_reads d t : ensure_map d t =
+  if Nat.leb max_depth d then Err else if upgradable t then Ok (TMap (t_nullable t) (TUnknown false) (TUnknown false)) else match t with TMap _ _ _ => Ok t | _ => Err end.
+Proof. reflexivity. Qed.
+Lemma ensure_struct_reads d m t : ensure_struct d m t =
+  if Nat.leb max_depth d then Err else if upgradable t then Ok (TStruct (t_nullable t) m 0 []) else match t with TStruct n m0 s fs => Ok (TStruct n (m0 || m) s fs) | _ => Err end.
+Proof. reflexivity. Qed.
+Lemma ensure_tuple_reads d k t : ensure_tuple d k t =
+  if Nat.leb max_depth d then Err else if upgradable t then Ok (TTuple (t_nullable t) (repeat (TUnknown false) k)) else match t with TTuple nl fs => Ok (TTuple nl (arity_adjust fs k)) | _ => Err end.
+Proof. reflexivity. Qed.
+Lemma ensure_union_reads d t : ensure_union d t =
+  if Nat.leb max_depth d then Err else if upgradable t then Ok (TUnion (t_nullable t) []) else match t with TUnion _ _ => Ok t | _ => Err end.
+Proof. reflexivity. Qed.
+Lemma upgradable_reads t : upgradable t = match t with TUnknown _ => true | TPrim _ PNull => true | _ => false end.
+Proof. reflexivity. Qed.
